@@ -981,7 +981,8 @@ func TestCheck(t *testing.T) {
 		"Part unimplemented-auth-method (E1): the enumeration of the first part for 4 registrations whose AuthMethod() is outside the implemented constants (client_secret_jwt with a secret on file, tls_client_auth without, the empty method with and without a secret); thorough: both groups crossed with the channel, 25 presentations")
 	c.Assume(
 		"refstore is the storage (trusted): secret authentication fails for clients without a secret; service users are the clients of the client_credentials grant",
-		"a private_key_jwt client never has a secret on file; a public client never has a secret on file",
+		"in the first three parts a private_key_jwt client never has a secret on file and a public client never has one; part mixed-credentials adds private_key_jwt registrations WITH a secret on file and a storage variant that accepts the empty secret of a secret-less client (as the repository's example storage does), so that whether such a client may authenticate with a secret is the framework's decision",
+		"part mixed-credentials: every request carries one to three credentials (Basic x body secret x client_assertion, 79 combinations); each is classified alone; all of them refusal reasons => must refuse; any one valid-as-registered or not ruled => Either (serving is never demanded in this part)",
 		"Either (DESIGN 1.6): channel of a correct secret; assertion by a keyed non-private_key_jwt client at introspection; exact status >= 400; exact error code among the registered OAuth codes",
 		"Either (decided while building, demanding less): public client sending a superfluous secret; valid assertion with wrong/missing client_assertion_type; private_key_jwt disabled in the provider; jwt-bearer grant by a keyed client not registered for it (issuer is identified by the storage key table); credential quality at /device_authorization for a known client",
 		"panics / double responses are outcome classes of C09 and satisfy a refusal obligation when nothing was issued",
